@@ -18,6 +18,9 @@ RESULT_UNIT = [
     ('span::utf8_to_char_index', 'C'),
     ('TokenList::end', 'B'),
 ]
+# callee suffix -> the result has the unit of the first argument (length of a range of bytes is a number of bytes)
+SAME_UNIT = [('ExactSizeIterator::len', True), ('ops::Range::<Idx>::len', True), ('usize::saturating_sub', True), ('usize::min', True), ('usize::max', True),
+             ('cmp::Ord::min', True), ('cmp::Ord::max', True), ('Clone::clone', True), ('usize::checked_sub', True), ('usize::wrapping_sub', True)]
 # callee suffix -> {arg index: unit}
 ARG_UNIT = [
     ('lsp::unicode::utf8_to_position', {1: 'B'}),
@@ -128,6 +131,10 @@ class Units:
                             changed |= self.set(dl, u, 'copy')
                         elif 'l' in op and not op['proj'] and self.unit.get(dl) not in (None, 'X'):
                             changed |= self.set(op['l'], self.unit[dl], 'copied into a %s local' % self.unit[dl])
+                    elif k == 'ref' and not dst['proj']:
+                        u = self.op_unit(dict(rv['place'], o='copy'))
+                        if u and u != 'X':
+                            changed |= self.set(dl, u, 'reference')
                     elif k == 'binop':
                         a, b2 = rv['a'], rv['b']
                         ua, ub = self.op_unit(a), self.op_unit(b2)
@@ -182,6 +189,10 @@ class Units:
                     ru = suffix_lookup(RESULT_UNIT, name)
                     if ru and not t['dest']['proj']:
                         changed |= self.set(t['dest']['l'], ru, 'result of ' + P.strip(name).split('::')[-1])
+                    if suffix_lookup(SAME_UNIT, name) and t['args'] and not t['dest']['proj']:
+                        u0 = self.op_unit(t['args'][0])
+                        if u0 and u0 != 'X':
+                            changed |= self.set(t['dest']['l'], u0, P.strip(name).split('::')[-1] + ' of a %s value' % u0)
                     au = suffix_lookup(ARG_UNIT, name)
                     if au:
                         for i, u in au.items():
